@@ -309,7 +309,7 @@ def gen_native(rng, nrev, allow_dotgit=True):
     return {"kind": "native", "revs": revs}
 
 
-GIT_NAMES = [b"aa", b"ab", b"a-", b"a0", b"bb", b"x y", "é".encode(), "é".encode(), b"zz ", b"dd", b"B.c"]
+GIT_NAMES = [b"aa", b"ab", b"a-", b"a0", b"bb", b"x y", "\u00e9t".encode(), "e\u0301".encode(), b"zz ", b"dd", b"B.c"]
 GIT_FILE_MODES = [M_REG, M_REG, M_REG, M_EXE, M_EXE, M_LNK]   # unusual modes: see corpus (C35-unusual-modes-iteritems)
 
 
